@@ -59,8 +59,11 @@ var v06Classes = []string{
 	"plain-evil", "userinfo-good-at-evil", "plain-good", "trailing-dot", "scheme-variant", "host-in-path",
 	"port-suffix", "userinfo-evil-at-good", "unparsable", "ipv6-mapped", "good-extended", "empty",
 	"opaque", "no-scheme", "ipv6-loopback", "no-port", "userinfo-with-ports", "wrong-scheme",
-	"name-repeated", "empty-host",
+	"name-repeated", "empty-host", "configured-relay",
 }
+
+// v06DefaultRelay is the relay URL the proxy of this process was configured with.
+var v06DefaultRelay string
 
 type v06Case struct {
 	Idx        int    `json:"i"`
@@ -289,6 +292,12 @@ func v06Build(c *v06Case, cfg v06Cfg, r *vlib.Rand) {
 		default:
 			c.URL = fmt.Sprintf("%s://%s:%d\\@%s:%d%s", sch, E, port(E), G, port(G), path)
 		}
+	case "configured-relay":
+		// the broker names, letter for letter, the relay the operator configured as the
+		// default: it is a broker-supplied URL like any other and must pass the same test
+		c.URL = v06DefaultRelay
+		c.Host = "127.0.0.1"
+		c.Scheme = "ws"
 	case "empty":
 		c.URL = ""
 		c.Host = ""
@@ -319,7 +328,7 @@ func v06Build(c *v06Case, cfg v06Cfg, r *vlib.Rand) {
 }
 
 func TestVerifC06c(t *testing.T) {
-	res := vlib.NewResult("C06", "inpkg-proxy-c06c", "per shard one real SnowflakeProxy with a relay pattern (exact, suffix, short digit suffix, empty) and AllowNonTLSRelay on/off is handed genuine offers with tampered relay URLs of 20 classes (in/out-of-pattern IP-literal hosts, a host name that begins and ends with the pattern's name, an authority without a host, userinfo tricks, trailing dot, host text in path/query/fragment, port text completing the suffix, IPv6 forms, opaque, scheme variants, unparsable, empty); verdict by construction + documented pattern semantics; observed at the /answer POST and at per-case decoy listeners; non-trivial = case executed until the proxy's next poll, distinct by (pattern, non-TLS flag, class, URL)")
+	res := vlib.NewResult("C06", "inpkg-proxy-c06c", "per shard one real SnowflakeProxy with a relay pattern (exact, suffix, short digit suffix, empty) and AllowNonTLSRelay on/off is handed genuine offers with tampered relay URLs of 21 classes (in/out-of-pattern IP-literal hosts, a host name that begins and ends with the pattern's name, an authority without a host, userinfo tricks, trailing dot, host text in path/query/fragment, port text completing the suffix, IPv6 forms, opaque, scheme variants, unparsable, empty); verdict by construction + documented pattern semantics; observed at the /answer POST and at per-case decoy listeners; non-trivial = case executed until the proxy's next poll, distinct by (pattern, non-TLS flag, class, URL)")
 	defer res.Finish()
 	shard, _ := vlib.Shard()
 	root := vlib.NewRand(vlib.Seed()).Split("c06c").SplitN("shard", shard)
@@ -356,7 +365,8 @@ func TestVerifC06c(t *testing.T) {
 		return vReply{200, []byte(`{"Status":"success"}`)}
 	}
 	br.mu.Unlock()
-	run := vStartProxy(4, br.url(), st.addr, fmt.Sprintf("ws://%s/default/echo", def.hostport()), cfg.Pattern, cfg.NonTLS)
+	v06DefaultRelay = fmt.Sprintf("ws://%s/default/echo", def.hostport())
+	run := vStartProxy(4, br.url(), st.addr, v06DefaultRelay, cfg.Pattern, cfg.NonTLS)
 	_ = run
 	res.Note("config", cfg)
 	res.Obs("shards_pattern_"+cfg.Pattern+fmt.Sprintf("_nontls_%v", cfg.NonTLS), 1)
@@ -378,6 +388,9 @@ func TestVerifC06c(t *testing.T) {
 	}
 	if cfg.Pattern != "$" {
 		classes = append(classes, "empty-host") // every pattern but the empty suffix rejects the empty name
+	}
+	if !(v06Member(cfg.Pattern, "127.0.0.1") && cfg.NonTLS) {
+		classes = append(classes, "configured-relay") // the operator's own relay fails the operator's own test
 	}
 	off := (shard * 5) % len(v06Classes)
 	for i := 0; len(classes) < nCases; i++ {
